@@ -50,7 +50,7 @@ from simkit.world import InvalidScenario, Monitor, Violation, result, run_sim, s
 
 PROPERTY = "C19"
 RUNS = {"quick": 6000, "thorough": 300_000}
-WALL = {"quick": 45, "thorough": 1500}
+WALL = {"quick": 50, "thorough": 1500}
 BATCH = {"quick": 50, "thorough": 300}
 RULE = (
     "each case is one generated messaging history run on the real engine: queue/* = <=40 published messages, 1-4 "
@@ -89,7 +89,11 @@ ASSUMPTIONS = [
 ]
 EXPECTED_PROBES = [
     "probe.q_redelivered", "probe.q_dead_lettered", "probe.q_late_answer", "probe.q_crash_lost_delivery",
-    "probe.q_rr_multiple_consumers", "probe.q_requeue",
+    "probe.q_rr_multiple_consumers", "probe.q_requeue", "probe.q_positive_latency_delivery_received",
+    "probe.q_answer_while_copy_in_transit", "probe.q_late_answer_while_pending",
+    "probe.q_redelivery_event_skipped_after_poll", "probe.q_redelivered_to_other_consumer",
+    "probe.q_limit_exhausted_by_timeout", "probe.q_unsub_with_delivery_in_transit",
+    "probe.t_positive_latency_received", "probe.t_unsubscribed_during_fanout",
     "probe.t_active_set_changed", "probe.t_resubscribed", "probe.l_rebalance_multi", "probe.l_retention_expired",
     "probe.l_commit_smaller", "probe.l_churn_during_poll", "fault.crash", "fault.pause",
 ]
@@ -108,21 +112,21 @@ def _times(rng, n, horizon, step=0.001):
 
 
 def gen_queue(rng):
-    mode = rng.choice(["clean", "clean", "timeouts", "timeouts", "guarded", "guarded"])
+    mode = rng.choice(["clean", "timeouts", "timeouts", "timeouts", "guarded"])
     nc = rng.randint(1, 4)
     horizon = rng.choice([0.1, 0.3])
-    ack_timeout = rng.choice([0.004, 0.02])
+    ack_timeout = rng.choice([0.004, 0.01, 0.02])
     msgs = []
     for t in _times(rng, rng.randint(1, 40), horizon):
         beh = []
-        for _ in range(rng.randint(1, 4)):
+        for _ in range(rng.randint(1, 5)):
             r = rng.random()
-            if mode != "clean" and r < 0.3:
+            if mode != "clean" and r < 0.35:
                 beh.append(["silent"])
             elif r < 0.65:
                 d = rng.choice([0.0, 0.0005, 0.002])
                 if mode == "timeouts" and rng.random() < 0.3:
-                    d = round(ack_timeout * rng.choice([1.5, 4.0, 12.0]), 6)
+                    d = round(ack_timeout * rng.choice([1.0, 1.5, 4.0, 12.0]), 6)
                 beh.append(["ack", d])
             else:
                 d = rng.choice([0.0, 0.0005, 0.002])
@@ -137,15 +141,15 @@ def gen_queue(rng):
         for t in _times(rng, rng.randint(1, 6), horizon * 1.5):
             subs.append({"t": round(t + 0.00037, 6), "c": rng.randrange(nc), "op": rng.choice(["sub", "unsub"])})
     faults = []
-    if mode != "clean" and rng.random() < 0.5:
+    if mode != "clean" and rng.random() < 0.6:
         faults = gen_faults(rng, nc, horizon * 2, kinds=("crash", "pause"), max_faults=3, min_len=0.003)
         for f in faults:
             if mode == "guarded" and f.get("end") is None:
                 f["end"] = round(f["start"] + 0.05, 4)
     return {
         "klass": "queue", "mode": mode, "seed": rng.getrandbits(48),
-        "latency": rng.choice([0.0, 0.0, 0.0, 0.001, 0.01]),
-        "redelivery_delay": rng.choice([0.003, 0.02, 0.1]),
+        "latency": rng.choice([0.0, 0.001, 0.003, 0.01, 0.02]),
+        "redelivery_delay": rng.choice([0.001, 0.003, 0.02, 0.1]),
         "max_redeliveries": rng.choice([0, 1, 2, 3, 5]) if mode != "guarded" else rng.choice([12, 16]),
         "dlq": rng.random() < 0.7, "capacity": rng.choice([None, None, None, 3, 10]), "n_consumers": nc,
         "poll_mode": rng.choice(["event", "event", "call"]), "poll_every": rng.choice([0.002, 0.005, 0.01]),
@@ -171,7 +175,7 @@ def gen_topic(rng):
     if rng.random() < 0.3:
         faults = gen_faults(rng, ns, max(t, 0.01), kinds=("crash", "pause"), max_faults=2, min_len=0.002)
     return {"klass": "topic", "mode": "faulty" if faults else "clean", "seed": rng.getrandbits(48), "n_subs": ns,
-            "latency": rng.choice([0.0, 0.0, 0.0, 0.001, 0.004]),
+            "latency": rng.choice([0.0, 0.001, 0.001, 0.004, 0.01]),
             "max_subscribers": rng.choice([None, None, None, 2]), "retain": rng.random() < 0.3,
             "initial": [i for i in range(ns) if rng.random() < 0.5], "ops": ops, "faults": faults}
 
@@ -359,6 +363,8 @@ class Admin(Entity):
         else:
             self.qw.q.unsubscribe(c)
             self.qw.subscribed.discard(c.idx)
+            if any(e["c"] == c.idx and not e["got"] and not e["excused"] for e in self.qw.open):
+                self.qw.pr["unsub_with_delivery_in_transit"] += 1
         return None
 
 
@@ -408,6 +414,7 @@ class QueueWorld:
         self.last_call = {}
         self.expect = []         # delivery expectations
         self.open = []
+        self.last_consumer = {}
         self.req_count = {}      # message id -> attempts counted when the last redelivery was requested
         self.stale = set()
         self.receipts = 0
@@ -471,6 +478,10 @@ class QueueWorld:
         msg = q.get_message(mid)
         where = self._where(mid)
         late = msg is None or where != "in-flight" or msg.delivery_count != md["attempt"]
+        if any(e["idx"] == idx and not e["got"] and not e["excused"] for e in self.open):
+            self.pr["answer_while_copy_in_transit"] += 1
+        if late and where == "pending":
+            self.pr["late_answer_while_pending"] += 1
         if late:
             if self.guard:          # well-behaved consumer: only answers for the attempt it still holds
                 self.pr["guarded_skip"] += 1
@@ -507,9 +518,10 @@ class QueueWorld:
         ev = q.schedule_redelivery(mid)
         if where == "in-flight":
             self.last_call[idx] = "schedule_redelivery-while-in-flight"
-            if ev is None and cnt >= self.limit and mid not in q._redelivery_scheduled and self.dlq is None \
-                    and q.get_message(mid) is None:
-                self.discarded[idx] = "limit"
+            if ev is None and cnt >= self.limit and q.get_message(mid) is None:
+                self.pr["limit_exhausted_by_timeout"] += 1
+                if self.dlq is None:
+                    self.discarded[idx] = "limit"
         if ev is not None:
             self.pr["redelivery_requested"] += 1
             self.req_count[mid] = cnt
@@ -543,6 +555,8 @@ class QueueWorld:
                 self._viol("poll-delivers-pending", "ghost-id-at-head-of-pending-blocks-queue" if ghost else "poll-delivered-nothing",
                            f"poll at {now}ns delivered nothing although {self.prev_live_pending} message(s) were pending and "
                            f"{self.prev_consumers} consumer(s) subscribed (head of pending: {head!r}, ghost={ghost})")
+            if is_redelivery and initiated == 0:
+                self.pr["redelivery_event_skipped"] += 1
             if is_redelivery and initiated == 0 and self.prev_consumers > 0:
                 mid = ev.context.get("message_id")
                 i = self.idx_of.get(mid)
@@ -660,6 +674,9 @@ class QueueWorld:
             self.first_delivered.append(i)
         else:
             self.pr["redelivered"] += 1
+            if self.last_consumer.get(i) not in (None, cidx):
+                self.pr["redelivered_to_other_consumer"] += 1
+        self.last_consumer[i] = cidx
         self.expect.append({"idx": i, "attempt": attempt, "c": cidx, "t": now, "got": False, "excused": False})
         self.open.append(self.expect[-1])
         if self.timeouts:
@@ -710,6 +727,12 @@ def run_queue(sc):
         "probe.q_late_answer": int(pr["late_answer"] > 0), "probe.q_crash_lost_delivery": int(pr["crash_lost"] > 0),
         "probe.q_rr_multiple_consumers": int(len(qw.used_consumers) > 1), "probe.q_requeue": int(pr["requeue"] > 0),
         "probe.q_positive_latency_delivery_received": int(pr["poslat_received"] > 0),
+        "probe.q_answer_while_copy_in_transit": int(pr["answer_while_copy_in_transit"] > 0),
+        "probe.q_late_answer_while_pending": int(pr["late_answer_while_pending"] > 0),
+        "probe.q_redelivery_event_skipped_after_poll": int(pr["redelivery_event_skipped"] > 0),
+        "probe.q_redelivered_to_other_consumer": int(pr["redelivered_to_other_consumer"] > 0),
+        "probe.q_limit_exhausted_by_timeout": int(pr["limit_exhausted_by_timeout"] > 0),
+        "probe.q_unsub_with_delivery_in_transit": int(pr["unsub_with_delivery_in_transit"] > 0),
         "q_deliveries_counted": len(qw.expect), "q_receipts": qw.receipts, "q_publish_refused": qw.refused,
         "q_redelivery_requests": pr["redelivery_requested"], "budget_runs": int(status == "budget"),
     }
@@ -769,6 +792,10 @@ class TDriver(Entity):
                     tw.refused += 1
             else:
                 t.unsubscribe(s)
+                now = self.now.nanoseconds
+                if any(s.idx in p["active"] and p["t"] <= now <= p["t"] + len(p["active"]) * tw.lat_ns
+                       and not tw.got.get((p["n"], s.idx)) for p in tw.pubs[-4:]) and tw.lat_ns:
+                    tw.unsub_during_fanout += 1
                 if s.idx in tw.active:
                     tw.active.remove(s.idx)
             got = sorted(x.idx for x in t.subscribers)
@@ -801,7 +828,7 @@ class TopicWorld:
         self.driver = TDriver(self)
         self.active = []
         self.ever = set()
-        self.resub = self.refused = self.replays = 0
+        self.resub = self.refused = self.replays = self.unsub_during_fanout = 0
         self.pubs = []       # {"n", "t", "active"}
         self.pending_event_pubs = {}
         self.got = collections.Counter()
@@ -886,6 +913,8 @@ def run_topic(sc):
     sig, msg = _finish(status, payload, tw.finish)
     sets = {tuple(p["active"]) for p in tw.pubs}
     counters = {"probe.t_active_set_changed": int(len(sets) > 1), "probe.t_resubscribed": int(tw.resub > 0),
+                "probe.t_positive_latency_received": int(tw.lat_ns > 0 and sum(tw.got.values()) > 0),
+                "probe.t_unsubscribed_during_fanout": int(tw.unsub_during_fanout > 0),
                 "t_publishes": len(tw.pubs), "t_receipts": sum(tw.got.values()), "t_subscribe_refused": tw.refused,
                 "t_replays": tw.replays, "budget_runs": int(status == "budget")}
     counters.update(fd.counters())
